@@ -303,8 +303,13 @@ pub fn c17_values(tier: Tier) -> Vec<Option<String>> {
 }
 
 pub fn c17_case(ae: &Option<String>, level: u32, chunk: usize, method: &str, as_parts: bool, payload_len: usize, out: &mut Vec<Finding>) -> Option<String> {
+    c17_case_calls(ae, level, chunk, method, as_parts, payload_len, &[], out)
+}
+
+#[allow(clippy::too_many_arguments)]
+pub fn c17_case_calls(ae: &Option<String>, level: u32, chunk: usize, method: &str, as_parts: bool, payload_len: usize, pre: &[Option<u32>], out: &mut Vec<Finding>) -> Option<String> {
     let cfg = Config { chunk, level, accept: ae.clone(), payload: Payload::Rand };
-    let mut x = match Exec::new_repr(&cfg, method, as_parts) {
+    let mut x = match Exec::new_calls(&cfg, method, as_parts, pre) {
         Ok(x) => x,
         Err(m) => {
             if m.contains("panic") || !m.contains("header") {
@@ -416,6 +421,28 @@ pub fn run_c17(run: &mut Run) -> Stats {
                         }
                         if reprs.len() == 2 && reprs[0] != reprs[1] && (prop == "C17") {
                             st.violation(order, "request-vs-parts".into(), format!("Request and Parts representations differ: {} vs {}", reprs[0], reprs[1]), || json!({"engine": "neg_mc_c17", "accept_encoding": ae, "level": level, "chunk": chunk, "method": method, "as_parts": true, "payload_len": plen}));
+                        }
+                        // earlier builder calls that are overridden later must not matter
+                        if let Some(base) = reprs.first() {
+                            if plen == 0 && (level == 0 || level == 1 || level == 6) {
+                                for pre in [vec![Some(0u32)], vec![Some(9)], vec![None, Some(0)], vec![Some(0), None, Some(3)], vec![Some(5), Some(0)]] {
+                                    order += 1;
+                                    let mut fs = Vec::new();
+                                    let r = c17_case_calls(ae, level, chunk, method, false, plen, &pre, &mut fs);
+                                    st.evaluations += 1;
+                                    st.nontrivial(&(ae, level, chunk, method, &pre));
+                                    st.count("builder_call_sequences", 1);
+                                    let differs = r.as_ref() != Some(base);
+                                    for f in fs {
+                                        if f.props.contains(&prop.as_str()) {
+                                            st.violation(order, format!("{}:after-earlier-builder-calls", f.key), f.msg.clone(), || json!({"engine": "neg_mc_c17", "accept_encoding": ae, "level": level, "chunk": chunk, "method": method, "as_parts": false, "payload_len": plen, "earlier_builder_calls": format!("{pre:?}")}));
+                                        }
+                                    }
+                                    if differs && prop == "C17" {
+                                        st.violation(order, "builder-call-order".into(), format!("earlier builder calls {pre:?} (overridden by the final with_chunk_size/with_gzip_level) change the response: {r:?} vs {base}"), || json!({"engine": "neg_mc_c17", "accept_encoding": ae, "level": level, "chunk": chunk, "method": method, "as_parts": false, "payload_len": plen, "earlier_builder_calls": format!("{pre:?}")}));
+                                    }
+                                }
+                            }
                         }
                         // HEAD mirrors GET (headers)
                         if let Some(r) = reprs.first() {
